@@ -19,6 +19,3 @@ def run(tier, rep):
         "the TLA+ reading of std::pair/tuple/invoke/bind_front/not_fn/reference_wrapper is calibrated against libstdc++ (-std=c++23)",
     ]
 
-
-def replay(path):
-    return cpipe.replay(path)
